@@ -163,15 +163,6 @@ Definition answer_local_first (B : blocal) (q : query) (a : answer) : bool :=
                       then match a with ALocal _ _ | ALocalChild _ _ => true | _ => false end else true
   | _ => true
   end.
-(* region: an imported *module* of that name exists and B's entity is not a module / submodule *)
-Definition shadow_region (B : blocal) (tops : list xval) (q : query) : bool :=
-  match q with
-  | QFind n None _ =>
-    negb (lower_in n (local_names B CModules) || lower_in n (local_names B CSubmodules))
-    && ext_named tops n
-  | _ => false
-  end.
-
 (* the run goes on and a failed load left nothing behind *)
 Definition impl_survives (i : impl_out) : bool :=
   match i with IRaised _ | IRaisedOther | IContainedDirty => false | _ => true end.
@@ -194,12 +185,16 @@ Definition judge (c : case) : nat :=
     let tops := match o with OLoaded t => t | _ => [] end in
     let bad_q := existsb (fun qa => negb (answer_eqb (run_query B tops (fst qa)) (snd qa))) qs in
     let lf_bad := filter (fun qa => negb (answer_local_first B (fst qa) (snd qa))) qs in
-    let lf_out := existsb (fun qa => negb (shadow_region B tops (fst qa))) lf_bad in
     verdict (negb (out_matches o impl) || bad_q)
             (negb (impl_survives impl) || negb (Nat.eqb (length lf_bad) 0))
-            (if negb (impl_survives impl) then 0
-             else if negb (Nat.eqb (length lf_bad) 0) && negb lf_out then 6 else 0)
+            0
   | CLoadSeq srcs impl =>
-    verdict (negb (out_matches (OLoaded (load_all srcs)) impl)) (negb (impl_survives impl)) 0
+    (* "costs only the links" of the broken description: the modules of every readable one are there *)
+    let present m := existsb (fun x => json_eq (x_name x) (x_name m)) (tops_of_impl impl) in
+    let kept := forallb (fun src => match load src with
+                                    | OLoaded l => forallb present (ext_list l PLModules)
+                                    | _ => true
+                                    end) srcs in
+    verdict (negb (out_matches (OLoaded (load_all srcs)) impl)) (negb (impl_survives impl) || negb kept) 0
   | CJoin b rel impl => verdict (negb (str_eqb (rebase b rel) impl)) false 0
   end.
